@@ -31,10 +31,12 @@ NT = 48  # template names t0 .. t47 are predefined in the Coq case header
 MISSING = "zz"
 
 TEXTS = [a + d for a in "abcdpqrsuvw" for d in "0123456789"]
+WS_TEXTS = {" ": "x_sp", "\n": "x_nl", " \n": "x_spnl", "  ": "x_sp2"}
 
 DEFS = "\n".join(
     [f"Definition n_{b} : str := {C.cstr(b)}." for b in BNAMES]
     + [f"Definition x_{t} : str := {C.cstr(t)}." for t in TEXTS]
+    + [f"Definition {n} : str := {C.cstr(t)}." for t, n in WS_TEXTS.items()]
     + [f"Definition t{i} : str := {C.cstr('t' + str(i))}." for i in range(NT)]
     + [f"Definition t_{MISSING} : str := {C.cstr(MISSING)}.",
        "Definition B := Blk.", "Definition T := Text.", "Definition E := Ext.",
@@ -48,6 +50,7 @@ SPEC_FUEL = 400
 
 # ---------------------------------------------------------------- templates
 # item: ("T", text) | ("B", name, required, body, endname|None) | ("S",) | ("E", template name)
+#       | ("Q", 0|1)  a silent tag (assign / comment)   | ("W", "if"|"for", body)  {% if true %} / {% for i in (1..1) %}
 #       | ("I", template name) | ("N", template name)   include / render tag: harness and Python specification only
 
 
@@ -60,6 +63,13 @@ def to_src(items: Iterable[tuple]) -> str:
             out.append("{{ block.super }}")
         elif it[0] == "E":
             out.append("{% extends '" + it[1] + "' %}")
+        elif it[0] == "Q":
+            out.append("{% assign z = 1 %}" if it[1] == 0 else "{% comment %}c{% endcomment %}")
+        elif it[0] == "W":
+            if it[1] == "if":
+                out.append("{% if true %}" + to_src(it[2]) + "{% endif %}")
+            else:
+                out.append("{% for i in (1..1) %}" + to_src(it[2]) + "{% endfor %}")
         elif it[0] == "I":
             out.append("{% include '" + it[1] + "' %}")
         elif it[0] == "N":
@@ -88,11 +98,16 @@ def c_items(items: Iterable[tuple]) -> str:
     out = []
     for it in items:
         if it[0] == "T":
-            out.append(f"T x_{it[1]}" if it[1] in TEXTS else f"T {C.cstr(it[1])}")
+            out.append(f"T x_{it[1]}" if it[1] in TEXTS else
+                       f"T {WS_TEXTS[it[1]]}" if it[1] in WS_TEXTS else f"T {C.cstr(it[1])}")
         elif it[0] == "S":
             out.append("S'")
         elif it[0] == "E":
             out.append(f"E {c_name(it[1])}")
+        elif it[0] == "Q":
+            out.append("Quiet")
+        elif it[0] == "W":
+            out.append(f"Wrap {'WIf' if it[1] == 'if' else 'WFor'} {c_items(it[2])}")
         else:
             _, n, req, body, endn = it
             e = "NS" if endn is None else f"(Some {c_bname(endn)})"
@@ -106,14 +121,14 @@ class Interned:
 
     def __init__(self, cases: Iterable[tuple[dict, tuple, int]], at_least: int = 3) -> None:
         count: dict[str, int] = {}
-        for tpls, _, _ in cases:
-            for v in tpls.values():
+        for case in cases:
+            for v in case[0].values():
                 k = repr(v)
                 count[k] = count.get(k, 0) + 1
         self.names: dict[str, str] = {}
         self.defs: list[str] = []
-        for tpls, _, _ in cases:
-            for v in tpls.values():
+        for case in cases:
+            for v in case[0].values():
                 k = repr(v)
                 if count[k] >= at_least and k not in self.names:
                     self.names[k] = f"p{len(self.names)}"
@@ -161,20 +176,22 @@ class Runner:
 
     def __init__(self) -> None:
         self.loop = asyncio.new_event_loop()
-        self.env_classes: dict[int, type] = {}
+        self.env_classes: dict[tuple, type] = {}
         self.timeout = RENDER_TIMEOUT_S
         signal.signal(signal.SIGALRM, _on_alarm)
 
     def close(self) -> None:
         self.loop.close()
 
-    def env_class(self, limit: int) -> type:
+    def env_class(self, limit: int, suppress: bool = True) -> type:
         from liquid2 import Environment
-        if limit not in self.env_classes:
-            self.env_classes[limit] = type(f"Env{limit}", (Environment,), {"context_depth_limit": limit})
-        return self.env_classes[limit]
+        key = (limit, suppress)
+        if key not in self.env_classes:
+            self.env_classes[key] = type(f"Env{limit}{suppress}", (Environment,), {
+                "context_depth_limit": limit, "suppress_blank_control_flow_blocks": suppress})
+        return self.env_classes[key]
 
-    def run(self, tpls: dict[str, list], entry: tuple, limit: int) -> list[tuple]:
+    def run(self, tpls: dict[str, list], entry: tuple, limit: int, suppress: bool = True) -> list[tuple]:
         """entry: ("direct", name) | ("wrap", [(is_render, name), ...]).
         Returns the four outcomes [dict/sync, dict/async, caching/sync, caching/async]."""
         from liquid2 import CachingDictLoader, DictLoader
@@ -182,7 +199,7 @@ class Runner:
         outs = []
         for loader_cls in (DictLoader, CachingDictLoader):
             for is_async in (False, True):
-                env = self.env_class(limit)(loader=loader_cls(dict(srcs)))
+                env = self.env_class(limit, suppress)(loader=loader_cls(dict(srcs)))
                 # a render that does not end is an outcome, not a hang; the timer repeats because an
                 # exception raised inside a GC/weakref callback is swallowed by the interpreter
                 signal.setitimer(signal.ITIMER_REAL, self.timeout, 0.05)
@@ -228,9 +245,26 @@ def _walk(items: Iterable[tuple]):
         yield it
         if it[0] == "B":
             yield from _walk(it[3])
+        elif it[0] == "W":
+            yield from _walk(it[2])
 
 
-def pyspec(tpls: dict[str, list], name: str, _depth: int = 0) -> tuple | None:
+def is_blank(items: list) -> bool:
+    """A body made of whitespace text, silent tags and wrappers of such only.
+    A block tag, {{ block.super }} and extends are never blank."""
+    for it in items:
+        if it[0] == "T":
+            if it[1].strip() != "":
+                return False
+        elif it[0] == "W":
+            if not is_blank(it[2]):
+                return False
+        elif it[0] != "Q":
+            return False
+    return True
+
+
+def pyspec(tpls: dict[str, list], name: str, _depth: int = 0, suppress: bool = True) -> tuple | None:
     """Root parent's text, every block replaced by the first definition found
     walking leaf -> root, super = next definition; None if the unfolding does
     not terminate.  Written without stacks, contexts or limits."""
@@ -271,6 +305,10 @@ def pyspec(tpls: dict[str, list], name: str, _depth: int = 0) -> tuple | None:
                         break
             return out
 
+        def body(items: list, sup: list, depth: int) -> str:
+            text = render(items, sup, depth)
+            return "" if suppress and is_blank(items) else text
+
         def render(items: list, sup: list, depth: int) -> str:
             if depth + _depth > 150:
                 raise Diverges
@@ -280,11 +318,15 @@ def pyspec(tpls: dict[str, list], name: str, _depth: int = 0) -> tuple | None:
                     out.append(it[1])
                 elif it[0] == "S":
                     if sup:
-                        out.append(render(sup[0][3], sup[1:], depth + 1))
+                        out.append(body(sup[0][3], sup[1:], depth + 1))
                 elif it[0] == "E":
                     raise SpecErr("ContextDepthError")
+                elif it[0] == "Q":
+                    pass
+                elif it[0] == "W":
+                    out.append(body(it[2], sup, depth + 1))
                 elif it[0] in ("I", "N"):
-                    sub = pyspec(tpls, it[1], _depth + depth + 1)
+                    sub = pyspec(tpls, it[1], _depth + depth + 1, suppress)
                     if sub is None:
                         raise Diverges
                     if sub[0] == "err":
@@ -294,7 +336,7 @@ def pyspec(tpls: dict[str, list], name: str, _depth: int = 0) -> tuple | None:
                     ds = defs(it[1])
                     if ds[0][2]:
                         raise SpecErr("RequiredBlockError")
-                    out.append(render(ds[0][3], ds[1:], depth + 1))
+                    out.append(body(ds[0][3], ds[1:], depth + 1))
             return "".join(out)
 
         return ("ok", render(chain[-1], [], 0))
@@ -351,12 +393,66 @@ def fam_cases(k: int, d: int) -> Iterable[tuple[dict, tuple, int]]:
         yield tpls, ("direct", f"t{d - 1}"), 30
 
 
+# The "blank" family: bodies that are empty, whitespace-only or hold only a
+# silent tag; required blocks with empty bodies, nested; enclosing blocks / if /
+# for whose other content is whitespace.  States per block:
+#   O omitted, D visible text, e empty body, w whitespace body, q only a silent
+#   tag, r required with an empty body.
+BL_STATES = "ODewqr"
+
+
+def bl_template(i: int, names: list[str], states: tuple[str, ...], pat: int) -> list:
+    def blk(n: str, st: str, inner: list) -> tuple:
+        own = {"D": [("T", n + str(i))], "e": [], "w": [("T", " ")], "q": [("Q", i % 2)], "r": []}[st]
+        return ("B", n, st == "r", own + inner, None)
+
+    defined = [(n, s) for n, s in zip(names, states) if s != "O"]
+    if pat in (1, 2) and len(defined) >= 2:
+        seq = defined if pat == 1 else defined[::-1]
+        cur: list = []
+        for n, s in seq[::-1]:
+            cur = [blk(n, s, cur)]
+        blocks = cur
+    elif pat in (4, 5) and defined:
+        inner = [("T", " ")] + [blk(n, s, []) for n, s in defined] + [("T", "\n")]
+        blocks = [("W", "if" if pat == 4 else "for", inner)]
+    else:
+        blocks = [blk(n, s, []) for n, s in defined]
+    if i == 0:
+        return [("T", "[")] + blocks + [("T", "]")]
+    return [("E", f"t{i - 1}")] + blocks + [("T", "x")]
+
+
+def bl_shapes(k: int) -> list[tuple[tuple[str, ...], int]]:
+    out = []
+    for states in itertools.product(BL_STATES, repeat=k):
+        nd = sum(s != "O" for s in states)
+        pats = [0] if nd == 0 else ([0, 4, 5] if nd == 1 else [0, 1, 2, 4, 5])
+        out += [(states, p) for p in pats]
+    return out
+
+
+def bl_cases(k: int, d: int) -> Iterable[tuple[dict, tuple, int]]:
+    names = BNAMES[:k]
+    shapes = bl_shapes(k)
+    for combo in itertools.product(shapes, repeat=d):
+        tpls = {f"t{i}": bl_template(i, names, st, p) for i, (st, p) in enumerate(combo)}
+        yield tpls, ("direct", f"t{d - 1}"), 30
+
+
 def rand_items(r, names: list[str], depth: int, *, top: bool, p_ext: float, tnames: list[str]) -> list:
     out = []
     for _ in range(r.randint(0, 3 if top else 2)):
         x = r.random()
-        if x < 0.3:
+        if x < 0.2:
             out.append(("T", r.choice("pqrsuvw") + r.choice("0123456789")))
+        elif x < 0.27:
+            out.append(("T", r.choice([" ", "\n", " \n", "  "])))
+        elif x < 0.31:
+            out.append(("Q", r.randint(0, 1)))
+        elif x < 0.36 and depth > 0:
+            out.append(("W", r.choice(["if", "for"]),
+                        rand_items(r, names, depth - 1, top=False, p_ext=p_ext, tnames=tnames)))
         elif x < 0.45:
             out.append(("S",))
         elif x < 0.45 + p_ext:
@@ -377,6 +473,8 @@ def dedup_blocks(r, items: list, used: set[str], keep_dups: bool) -> list:
                 continue
             used.add(it[1])
             out.append(it[:3] + (dedup_blocks(r, it[3], used, keep_dups), it[4]))
+        elif it[0] == "W":
+            out.append(it[:2] + (dedup_blocks(r, it[2], used, keep_dups),))
         else:
             out.append(it)
     return out
@@ -509,6 +607,35 @@ CORPUS: list[tuple[dict, tuple, int]] = [
 ]
 
 
+def _rq(body: list) -> tuple:
+    return ("B", "b", True, body, None)
+
+
+# required blocks with blank bodies nested in otherwise-blank blocks / if / for (run with suppression on and off)
+BLANK_CORPUS: list[tuple[dict, tuple, int]] = [
+    ({"t0": [("T", "["), ("B", "a", False, [_rq([])], None), ("T", "]")],
+      "t1": [("E", "t0"), ("B", "b", False, [("T", "lb")], None)]}, ("direct", "t1"), 30),
+    ({"t0": [("T", "["), ("B", "a", False, [("T", "\n"), ("T", "  "), _rq([]), ("T", "\n")], None), ("T", "]")],
+      "t1": [("E", "t0"), ("B", "b", False, [("T", "mb")], None)],
+      "t2": [("E", "t1"), ("B", "b", False, [("T", "lb"), ("S",)], None)]}, ("direct", "t2"), 30),
+    ({"t0": [("T", "["), ("B", "a", False, [("T", "ra")], None), ("T", "]")],
+      "t1": [("E", "t0"), ("B", "a", False, [_rq([])], None)],
+      "t2": [("E", "t1"), ("B", "b", False, [("T", "lb")], None)]}, ("direct", "t2"), 30),
+    ({"t0": [("T", "["), ("W", "if", [_rq([])]), ("T", "]")],
+      "t1": [("E", "t0"), ("B", "b", False, [("T", "lb")], None)]}, ("direct", "t1"), 30),
+    ({"t0": [("T", "["), ("W", "for", [("T", " "), _rq([("T", " ")]), ("Q", 0)]), ("T", "]")],
+      "t1": [("E", "t0"), ("B", "b", False, [("T", "lb")], None)]}, ("direct", "t1"), 30),
+    ({"t0": [("T", "["), _rq([]), ("T", "]")],
+      "t1": [("E", "t0"), ("B", "b", False, [("T", "lb")], None)]}, ("direct", "t1"), 30),
+    ({"t0": [("T", "["), ("B", "a", False, [("T", " "), ("B", "b", False, [("Q", 1)], None)], None), ("T", "]")],
+      "t1": [("E", "t0"), ("B", "b", False, [("T", " ")], None)],
+      "t2": [("E", "t1"), ("B", "b", False, [("T", "<"), ("S",), ("T", ">")], None)]}, ("direct", "t2"), 30),
+    ({"t0": [("T", "["), ("B", "a", False, [("W", "if", [("T", " "), ("W", "for", [("Q", 0), _rq([])])])], None), ("T", "]")],
+      "t1": [("E", "t0"), ("B", "b", False, [("T", "lb")], None)]}, ("wrap", [(False, "t1"), (True, "t1")]), 30),
+    ({"t0": [("T", "["), ("B", "a", False, [_rq([])], None), ("T", "]")], "t1": [("E", "t0")]}, ("direct", "t1"), 30),
+]
+
+
 def nontrivial(tpls: dict[str, list], entry: tuple) -> bool:
     """The inheritance mechanism ran: some template with an extends tag was
     entered and at least one block name is defined by two chain members, or
@@ -555,9 +682,11 @@ def _observe_chunk(chunk: list[tuple[dict, tuple, int]]) -> list[list[tuple]]:
     run = Runner()
     try:
         out = []
-        for tpls, entry, limit in chunk:
-            o = run.run(tpls, entry, limit)
-            o8 = run.run(tpls, entry, 8) if (("err", "RecursionError") in o and limit > 10) else None
+        for case in chunk:
+            tpls, entry, limit = case[:3]
+            suppress = case[3] if len(case) > 3 else True
+            o = run.run(tpls, entry, limit, suppress)
+            o8 = run.run(tpls, entry, 8, suppress) if (("err", "RecursionError") in o and limit > 10) else None
             out.append((o, o8))
         return out
     finally:
@@ -581,8 +710,8 @@ def observe_all(cases: list[tuple[dict, tuple, int]]) -> list[tuple]:
     return [x for r in res for x in r]
 
 
-def expected_by_spec(tpls: dict, names: list[str]) -> tuple | None:
-    parts = [pyspec(tpls, n) for n in names]
+def expected_by_spec(tpls: dict, names: list[str], suppress: bool = True) -> tuple | None:
+    parts = [pyspec(tpls, n, 0, suppress) for n in names]
     if any(p is None for p in parts):
         return None
     exp: tuple = ("ok", "")
@@ -599,7 +728,8 @@ def main(chk: C.Check, build: C.Build) -> None:
     thorough = chk.tier == "thorough"
     r = C.rng("c08")
 
-    cases: list[tuple[dict, tuple, int]] = list(CORPUS) + deep_cases() + [W30, WREC]
+    cases: list[tuple] = (list(CORPUS) + [c + (False,) for c in CORPUS[:12]] + BLANK_CORPUS
+                          + [c + (False,) for c in BLANK_CORPUS] + deep_cases() + [W30, WREC])
     n_fixed = len(cases)
     fam_counts: dict[str, Any] = {}
     #        names, depth, fraction in thorough, fraction in quick
@@ -624,15 +754,38 @@ def main(chk: C.Check, build: C.Build) -> None:
                               ("direct", f"t{d - 1}"), 30))
                 n += 1
         fam_counts[f"names={k},depth={d}"] = {"space": total, "run": n, "complete": p >= 1.0}
+    # the blank family: empty / whitespace / silent bodies, nested required blocks, if / for wrappers
+    bl_plan = [(1, 2, 1.0, 0.3), (1, 3, 1.0, 0.05), (2, 2, 1.0, 0.03),
+               (1, 4, 0.1, 0.002), (2, 3, 0.002, 0.00006), (3, 2, 0.004, 0.0001)]
+    for k, d, f_th, f_q in bl_plan:
+        shapes = bl_shapes(k)
+        total = len(shapes) ** d
+        p = f_th if thorough else f_q
+        n = 0
+        if total <= 100_000:
+            for c in bl_cases(k, d):
+                if p >= 1.0 or r.random() < p:
+                    cases.append(c + (r.random() < 0.8,))
+                    n += 1
+        else:
+            names = BNAMES[:k]
+            for _ in range(int(total * p)):
+                combo = [r.choice(shapes) for _ in range(d)]
+                cases.append(({f"t{i}": bl_template(i, names, st, pt) for i, (st, pt) in enumerate(combo)},
+                              ("direct", f"t{d - 1}"), 30, r.random() < 0.8))
+                n += 1
+        fam_counts[f"blank family names={k},depth={d}"] = {"space": total, "run": n, "complete": p >= 1.0}
     # the family entered through include / render (sample)
     fam_wrapped = 0
-    for tpls, entry, limit in cases[n_fixed:]:
+    for c in cases[n_fixed:]:
+        tpls, entry, limit = c[:3]
         if r.random() < 0.03 and len(tpls) > 1:
-            cases.append((tpls, ("wrap", [(r.random() < 0.5, entry[1])]), limit))
+            cases.append((tpls, ("wrap", [(r.random() < 0.5, entry[1])]), limit, c[3] if len(c) > 3 else True))
             fam_wrapped += 1
     nrand = 600 if not thorough else 15000
     for _ in range(nrand):
-        cases.append(rand_case(r, thorough))
+        cases.append(rand_case(r, thorough) + (r.random() < 0.75,))
+    cases = [c if len(c) == 4 else c + (True,) for c in cases]
 
     observed = observe_all(cases)
     interned = Interned(cases)
@@ -640,7 +793,8 @@ def main(chk: C.Check, build: C.Build) -> None:
     items: list[dict[str, Any]] = []
     dist = {"ok": 0, "TemplateInheritanceError": 0, "RequiredBlockError": 0, "TemplateNotFoundError": 0,
             "ContextDepthError": 0, "RecursionError": 0, "other": 0, "oracle_checked": 0, "wrapped": 0,
-            "spec_evaluated_in_coq": 0, "retied_at_limit_8": 0}
+            "spec_evaluated_in_coq": 0, "retied_at_limit_8": 0, "suppression_off": 0,
+            "blank_body_suppressed": 0}
     nontriv: set[str] = set()
 
     def agreed(outs: list[tuple], tpls: dict, entry: tuple, limit: int) -> tuple | None:
@@ -656,7 +810,7 @@ def main(chk: C.Check, build: C.Build) -> None:
             return None
         return outs[0]
 
-    for (tpls, entry, limit), (outs, outs8) in zip(cases, observed):
+    for (tpls, entry, limit, suppress), (outs, outs8) in zip(cases, observed):
         src = {k: to_src(v) for k, v in tpls.items()}
         names = [entry[1]] if entry[0] == "direct" else [n for _, n in entry[1]]
         guard = all(n in tpls and starts_with_ext(tpls[n]) for n in names)
@@ -666,7 +820,7 @@ def main(chk: C.Check, build: C.Build) -> None:
         if o == ("err", "RecursionError") and limit > 10:
             # CPython's recursion limit came before context_depth_limit. Recorded mechanism when the
             # page is infinite; the tie is checked at a limit where ContextDepthError comes first.
-            sp = expected_by_spec(tpls, names) if all(n in tpls for n in names) else "n/a"
+            sp = expected_by_spec(tpls, names, suppress) if all(n in tpls for n in names) else "n/a"
             chk.finding("recursive-block-structure-RecursionError" if sp is None
                         else "oracle:RecursionError-on-a-finite-page",
                         "RecursionError (not a LiquidError) at context_depth_limit=%d" % limit,
@@ -682,26 +836,34 @@ def main(chk: C.Check, build: C.Build) -> None:
         if entry[0] == "wrap":
             dist["wrapped"] += 1
         if nontrivial(tpls, entry):
-            nontriv.add(repr((tpls, entry, limit)))
+            nontriv.add(repr((tpls, entry, limit, suppress)))
+        if not suppress:
+            dist["suppression_off"] += 1
+        elif any(it[0] in ("B", "W") and is_blank(it[3] if it[0] == "B" else it[2])
+                 and (it[3] if it[0] == "B" else it[2])
+                 for t in tpls.values() for it in _walk(t)):
+            dist["blank_body_suppressed"] += 1   # some non-empty blank body exists in the case
+        sb = C.cbool(suppress)
         if entry[0] == "direct":
-            model = f"render_name {limit} ld {c_name(entry[1])}"
+            model = f"render_name {limit} {sb} ld {c_name(entry[1])}"
         else:
             w = C.clist((C.cpair(C.cbool(rr), c_name(n)) for rr, n in entry[1]), "(bool * str)")
-            model = f"run_wrapper {limit} ld {w}"
-        replay = {"templates": src, "entry": entry, "context_depth_limit": limit, "implementation": o}
+            model = f"run_wrapper {limit} {sb} ld {w}"
+        replay = {"templates": src, "entry": entry, "context_depth_limit": limit,
+                  "suppress_blank_control_flow_blocks": suppress, "implementation": o}
         checks = [f"outcome_eqb ({model}) e"]
         shown = [model]
 
         # direct oracle: the specification, on leaves that start with their extends tag
         if guard and o not in (("err", "ContextDepthError"), ("err", "RecursionError")):
-            exp = expected_by_spec(tpls, names)
+            exp = expected_by_spec(tpls, names, suppress)
             dist["oracle_checked"] += 1
             if exp != o:
                 chk.finding("oracle:output-differs-from-most-derived-resolution",
                             f"implementation gave {o}, the specification gives {exp if exp else 'no finite page'}",
                             dict(replay, specification=exp))
             if entry[0] == "direct":
-                sterm = f"spec_inherit {SPEC_FUEL} ld {c_name(entry[1])}"
+                sterm = f"spec_inherit {SPEC_FUEL} {sb} ld {c_name(entry[1])}"
                 checks.append(f"outcome_eqb ({sterm}) e")
                 shown.append(sterm)
                 dist["spec_evaluated_in_coq"] += 1
@@ -710,7 +872,7 @@ def main(chk: C.Check, build: C.Build) -> None:
                       "model": head + "(" + ", ".join(shown) + ")", "replay": replay})
 
     # known finding 1 (defect 30): text before the leaf's extends tag is emitted
-    i30 = cases.index(W30, n_fixed - 2)
+    i30 = cases.index(W30 + (True,), n_fixed - 2)
     o = agreed(observed[i30][0], *W30)
     sp = pyspec(W30[0], "t1")
     if o is not None and sp is not None and o != sp:
@@ -724,7 +886,7 @@ def main(chk: C.Check, build: C.Build) -> None:
                         f"witness of defect 30 now gives {o}, specification {sp}", {"implementation": o, "specification": sp})
     # known finding 2 is re-observed by the loop above on WREC (and on the family members like it);
     # whatever else that witness does must still be a rejection
-    iR = cases.index(WREC, n_fixed - 2)
+    iR = cases.index(WREC + (True,), n_fixed - 2)
     o = agreed(observed[iR][0], *WREC)
     if o is not None and o not in (("err", "RecursionError"), ("err", "ContextDepthError")):
         chk.finding("oracle:recursive-structure-not-rejected", f"recursive block structure gave {o}",
